@@ -131,6 +131,17 @@ class GhostPath:
         self.fs.log.append(("mkdir", self.key, None))
         self.fs.exists[self.key] = True
 
+    def touch(self, mode=0o666, exist_ok=True):
+        """Path.touch(): creates an empty file if there is none; an existing file keeps its content and size"""
+        e = self.fs.ex(self.key)
+        self.fs.log.append(("touch", self.key, None))
+        if e is False:
+            self.fs.size[self.key] = 0
+        elif e is not True:
+            from .core import wrap
+            self.fs.size[self.key] = wrap(z3.If(term(e), term(self.fs.size.get(self.key, z3.Int("size!" + self.key))), z3.IntVal(0)))
+        self.fs.exists[self.key] = True
+
 
 # np.memmap(file, dtype, mode, shape): element [n, c] is the item at flat offset n*nc + c of the file;
 # raises ValueError when the mapped length exceeds the file size
@@ -204,6 +215,10 @@ class GhostFile:
         if not hasattr(self, "texts"):
             self.texts = []
         self.texts.append(text)
+
+    def read(self, *a):
+        """the bytes of the file as an opaque token (what is done with them is the business of a contract of the consumer)"""
+        return ("BYTES", self.name)
 
     def seek(self, pos, whence=0):
         if whence != 0:
